@@ -140,6 +140,18 @@ def c11_gen_text():
         raise ExtractError("API.build: invalid_module_names not found")
     # the file_to_generate test of API.build: <x>.package.startswith(package)
     ftg = [ast.unparse(k.value) for n in ast.walk(build) if isinstance(n, ast.Call) for k in n.keywords if k.arg == "file_to_generate"]
+    ob = find_function("gapic/utils/options.py", "Options.build")
+    eq_splits = [n for n in ast.walk(ob) if isinstance(n, ast.Call) and isinstance(n.func, ast.Attribute) and n.func.attr == "split"
+                 and n.args and isinstance(n.args[0], ast.Constant) and n.args[0].value == "="]
+    if len(eq_splits) != 1 or eq_splits[0].keywords:
+        raise ExtractError("Options.build: expected exactly one opt.split('=' ...) call")
+    a = eq_splits[0].args
+    if len(a) == 1:
+        split_first = False
+    elif len(a) == 2 and isinstance(a[1], ast.Constant) and a[1].value == 1:
+        split_first = True
+    else:
+        raise ExtractError("Options.build: unexpected arguments of opt.split('=' ...)")
     sample_name = module_assign("gapic/samplegen/samplegen.py", "DEFAULT_TEMPLATE_NAME")
     flags = sorted(module_assign("gapic/utils/options.py", "OPT_FLAGS", "Options"))
     prefix = module_assign("gapic/utils/options.py", "PYTHON_GAPIC_PREFIX", "Options")
@@ -149,6 +161,7 @@ def c11_gen_text():
              f"Definition ads_templates : list string := {coq.slist(list_templates('ads-templates'))}.",
              f"Definition opt_flags : list string := {coq.slist(flags)}.",
              f"Definition gapic_prefix : string := {coq.s(prefix)}.",
+             f"Definition opt_split_first : bool := {coq.b(split_first)}.",
              f"Definition kwlist : list string := {coq.slist(interpreter_kwlist())}.",
              f"Definition sample_template_name : string := {coq.s(sample_name)}.",
              f"Definition invalid_module_extra : list string := {coq.slist(sorted(extra))}.",
